@@ -37,7 +37,7 @@ class clrp:
     def requires(a):
         mw_ok = (a.min_width == None) or both(a.min_width >= 0, a.min_width < B)  # noqa: E711
         return both(
-            mw_ok, 1 <= a.maxcol, a.maxcol < B, 0 <= a.align_amount, a.align_amount <= 100,
+            mw_ok, 0 <= a.maxcol, a.maxcol < B, 0 <= a.align_amount, a.align_amount <= 100,
             0 <= a.width_amount, a.width_amount < B, 0 <= a.left, a.left < B, 0 <= a.right, a.right < B,
             implies(a.width_type == "relative", a.width_amount <= 100 * 100),
         )
@@ -56,3 +56,113 @@ class clrp:
         al = align_pct(a.align_type, a.align_amount)
         d = 200 * (l - a.left) - 2 * al * spare
         yield "alignment", implies(spare >= 0, both(d <= 200, d >= -200))
+
+
+@contract("urwid/widget/filler.py:calculate_top_bottom_filler", property="C19")
+class ctbf:
+    params = dict(
+        maxrow=Int,
+        valign_type=Enum("top", "middle", "bottom", "relative"),
+        valign_amount=Int,
+        height_type=Enum("given", "relative"),
+        height_amount=Int,
+        min_height=Opt(Int),
+        top=Int,
+        bottom=Int,
+    )
+    result = Tup(Int, Int)
+
+    def requires(a):
+        mh_ok = (a.min_height == None) or (a.min_height >= 0)  # noqa: E711  (no floats here: no size bound needed)
+        return both(
+            mh_ok, 0 <= a.maxrow, 0 <= a.valign_amount, a.valign_amount <= 100,
+            0 <= a.height_amount, 0 <= a.top, 0 <= a.bottom,
+            implies(a.height_type == "relative", a.height_amount <= 100),
+        )
+
+    def ensures(a, result):
+        t, b = result
+        req = requested_size(a.maxrow, a.height_type, a.height_amount, a.min_height, a.top, a.bottom)
+        child = a.maxrow - t - b
+        spare = a.maxrow - req - a.top - a.bottom
+        yield "nonneg", both(t >= 0, b >= 0, child >= 0)
+        yield "fits", implies(spare >= 0, both(child == req, t >= a.top, b >= a.bottom))
+        yield "margins-dropped", implies(both(spare < 0, req <= a.maxrow), child == req)
+        yield "too-tall", implies(req > a.maxrow, child == a.maxrow)
+        al = align_pct(a.valign_type, a.valign_amount, "top", "middle", "bottom")
+        d = 200 * (t - a.top) - 2 * al * spare
+        yield "alignment", implies(spare >= 0, both(d <= 200, d >= -200))
+
+
+from contracts.proto_widget import *  # noqa: E402
+from urwid.widget import filler as _filler  # noqa: E402
+
+FILLER = Obj(
+    _filler.Filler,
+    dict(
+        _original_widget=Opaque("Widget"),
+        height_type=Enum("given", "relative", "pack"),
+        height_amount=Int,
+        valign_type=Enum("top", "middle", "bottom", "relative"),
+        valign_amount=Int,
+        min_height=Opt(Int),
+        top=Int,
+        bottom=Int,
+    ),
+)
+
+
+def filler_wf(s):
+    """Well-formedness of a Filler as its constructor establishes it (normalize_height / normalize_valign)."""
+    return both(
+        0 <= s.valign_amount, s.valign_amount <= 100, 0 <= s.top, s.top < B, 0 <= s.bottom, s.bottom < B,
+        implies(s.height_type == "given", both(s.height_amount >= 0, s.height_amount < B)),
+        implies(s.height_type == "relative", both(s.height_amount >= 0, s.height_amount <= 100)),
+        implies(neg(s.height_type == "relative"), mk_bool(s.min_height.isnone)),
+        implies(neg(mk_bool(s.min_height.isnone)), both(s.min_height.val >= 0, s.min_height.val < B)),
+    )
+
+
+def size_ok(size):
+    return both(*[both(x >= 1, x < B) for x in size])
+
+
+def filler_geometry(s, size, focus):
+    """(maxcol, maxrow, child_rows_requested) — the geometry every Filler entry point must share."""
+    W = PROTOCOLS["Widget"]
+    st = cur()
+    if len(size) == 2:
+        maxcol, maxrow = size
+    else:
+        maxcol = size[0]
+        if s.height_type == "pack":
+            maxrow = W.call_quiet(st, s._original_widget, "rows", dict(size=(maxcol,), focus=focus)) + s.top + s.bottom
+        else:
+            maxrow = s.height_amount + s.top + s.bottom
+    if s.height_type == "pack":
+        req = W.call_quiet(st, s._original_widget, "rows", dict(size=(maxcol,), focus=focus))
+    else:
+        req = requested_size(maxrow, s.height_type, s.height_amount, s.min_height, s.top, s.bottom)
+    return maxcol, maxrow, req
+
+
+@contract("urwid/widget/filler.py:Filler.filler_values", property="C19",
+          inline=("urwid/widget/widget.py:Widget.pack", "urwid/widget/filler.py:Filler.sizing", "urwid/widget/filler.py:Filler.rows",
+                  "urwid/widget/widget_decoration.py:WidgetDecoration.original_widget"))
+class filler_values:
+    self_shape = FILLER
+    params = dict(size=Union(Tup(Int, Int), Tup(Int)), focus=Bool)
+    result = Tup(Int, Int)
+
+    def requires(s, a):
+        return both(filler_wf(s), size_ok(a.size), implies(len(a.size) == 1, neg(s.height_type == "relative")))
+
+    def ensures(old, s, a, result):
+        t, b = result
+        maxcol, maxrow, req = filler_geometry(old, a.size, a.focus)
+        child = maxrow - t - b
+        spare = maxrow - req - old.top - old.bottom
+        yield "nonneg", both(t >= 0, b >= 0, child >= 0)
+        yield "fits", implies(spare >= 0, both(child == req, t >= old.top, b >= old.bottom))
+        yield "too-tall", implies(req > maxrow, child == maxrow)
+        yield "frame", both(*[eq(s.fields[k], old.fields[k]) for k in ("height_type", "height_amount", "valign_type", "valign_amount", "top", "bottom")])
